@@ -307,6 +307,19 @@ def run_cluster_impl(inp):
         return ("mutated-input", None)
     if sorted(out.index) != sorted(inp["index"]):
         return ("index-changed", list(out.index))
+    # the same table with its position columns called otherwise (pos_columns=new names)
+    if inp["explicit_pos"] and (len(f) + len(cols)) % 3 == 0:
+        new = [["x0", "x1", "x2"], ["xc", "yc", "zc"], ["x_um", "y_um", "z_um"], ["col", "row", "plane"]
+               ][len(f) % 4][:len(cols)]
+        try:
+            out2 = static.cluster(f.rename(columns=dict(zip(cols, new))), sep_arg,
+                                  **dict(kw, pos_columns=new))
+        except Exception as e:  # noqa
+            return ("raises-with-renamed-position-columns", repr(e))
+        if list(out2.index) != list(out.index) or \
+                list(out2["cluster"].values) != list(out["cluster"].values) or \
+                list(out2["cluster_size"].values) != list(out["cluster_size"].values):
+            return ("renamed-position-columns-change-the-clusters", None)
     lab = out["cluster"].reindex(inp["index"])
     siz = out["cluster_size"].reindex(inp["index"])
     return ("ok", [int(v) for v in lab.values], [int(v) for v in siz.values], captured)
